@@ -234,3 +234,113 @@ for pid, txt, part in [
 ]:
     PROPS[pid] = {'ops': ['merge'], 'judge': make_merge_judge(pid), 'rule': MERGE_RULE, 'assumptions': MERGE_ASSUME,
                   'level_text': txt, 'partial': part, 'timeout': 3000, 'exhaustive': {'quick': False, 'thorough': False}}
+
+
+import re as _re
+
+
+def norm_site(s):
+    """'panic:keepass::format::kdbx4::parse::parse_outer_header:index' -> 'panic:parse_outer_header:index';
+    '<keepass::db::HeaderAttachment as core::convert::From<&[u8]>>::from:index' -> 'panic:HeaderAttachment::from:index'"""
+    if not isinstance(s, str) or not s.startswith('panic:'):
+        return s
+    body = s[len('panic:'):]
+    cls = body.rsplit(':', 1)[1] if ':' in body else ''
+    fn = body.rsplit(':', 1)[0]
+    m = _re.search(r'<impl .* for ([^<> ]+)>::(\w+)$', fn) or _re.match(r'<?([^<> ]+) as [^>]*(?:<[^>]*>)?>::(\w+)', fn)
+    if m:
+        name = m.group(1).split('::')[-1] + '::' + m.group(2)
+    else:
+        fn = _re.sub(r'<[^<>]*>', '', fn).strip('<>')
+        parts = fn.split('::')
+        if len(parts) >= 2 and parts[-2][:1].isupper():
+            name = parts[-2] + '::' + parts[-1]
+        else:
+            name = parts[-1]
+    return 'panic:%s:%s' % (name, cls)
+
+
+def judge_kdbx4(pid):
+    def judge(case, out):
+        v = []
+        real = case['real']
+        sub = case.get('sub')
+        rdec = norm_site(real.get('decrypt'))
+        rparse = norm_site(real.get('parse'))
+        model = out.get('model') or {}
+        # correspondence: only when the file is dispatched to the KDBX4 reader
+        if out.get('sniff') == 'kdbx4':
+            if model.get('decrypt') != rdec:
+                v.append(('DISAGREE', 'kdbx4read:decrypt', 'model %s, real %s (%s)' % (model.get('decrypt'), rdec, case.get('extra', {}).get('mutation', sub))))
+            elif rdec == 'ok':
+                if model.get('xml_sha256') != real.get('xml_sha256'):
+                    v.append(('DISAGREE', 'kdbx4read:xml', 'decrypted XML differs'))
+                if rparse == 'ok':
+                    if model.get('config') != real.get('config'):
+                        v.append(('DISAGREE', 'kdbx4read:config', '%s vs %s' % (model.get('config'), real.get('config'))))
+                    if model.get('attachments') != real.get('attachments'):
+                        v.append(('DISAGREE', 'kdbx4read:attachments', ''))
+        ex = case.get('extra', {})
+        if pid == 'C01' and sub == 'wf':
+            it = ex.get('intended')
+            if rdec != 'ok' or rparse != 'ok':
+                v.append(('SPECFAIL', 'wf:conforming-file-rejected:%s' % (rdec if rdec != 'ok' else rparse), str(ex.get('layout'))))
+            elif it:
+                for k in ('config', 'attachments', 'xml_sha256'):
+                    if real.get(k) != it.get(k):
+                        v.append(('SPECFAIL', 'wf:%s-differs-from-stored' % k, '%s vs %s' % (str(real.get(k))[:100], str(it.get(k))[:100])))
+        if pid == 'C04' and sub == 'cred':
+            if rparse == 'ok':
+                v.append(('SPECFAIL', 'cred:wrong-credentials-open:%s' % ex.get('edit'), ''))
+            elif rparse != 'err:key':
+                v.append(('SPECFAIL', 'cred:wrong-credentials-not-a-key-error:%s' % rparse, 'edit %s' % ex.get('edit')))
+        if pid == 'C05' and sub == 'tamper':
+            o = ex.get('original', {})
+            if rparse == 'ok' and (real.get('db_sha256') != o.get('db_sha256') or real.get('config') != o.get('config')):
+                v.append(('SPECFAIL', 'tamper:different-content-accepted:%s' % ex.get('mutation'), ''))
+        if pid == 'C06':
+            for stage, r in (('get_xml', rdec), ('parse', rparse)):
+                if isinstance(r, str) and r.startswith('panic:'):
+                    v.append(('SPECFAIL', 'panic:%s' % r[len('panic:'):], '%s panics (%s)' % (stage, ex.get('mutation', sub))))
+        return v or [('AGREE', '', '')]
+    return judge
+
+
+FRAME_ASSUME = ['primitives (KDFs, outer ciphers, gzip) enter the model through the per-case oracle table computed with the upstream crates; SHA-256/512 and HMAC run natively in Lean',
+                'files are produced by the independent builder (harness/src/kdbx.rs) and by the real save']
+PROPS['C04'] = {
+    'ops': ['frame-cred'], 'judge': judge_kdbx4('C04'), 'assumptions': FRAME_ASSUME,
+    'rule': 'conforming KDBX4 files (all outer ciphers, AES-KDF/Argon2d/Argon2id, gzip on/off, random layouts) x credential edits {trailing blank, appended/deleted character, '
+            'case, password removed/added, NUL, key file removed/added/bit-flipped, empty credentials, reversed, empty password only, NFD/zero-width, swapped roles}; '
+            'edits that derive the same composite are skipped; every case is non-trivial; distinct by hash of (file, credentials)',
+    'partial': ['KDBX 3.1 and KDB ("some error") are covered once their builders exist (C02)',
+                'C04_kdbx4 takes as hypothesis that HMAC-SHA-256 under the two derived header keys separates the header (idealisation, stated in the theorem)'],
+    'level_text': 'Kernel-checked over the faithful model of decrypt_kdbx4 for every primitive family: a composite that yields a different header MAC gives a key error and never a value; '
+                  'empty credentials give a key error. The model is run against Database::get_xml/parse on every generated case with the per-case oracle table.',
+}
+PROPS['C05'] = {
+    'ops': ['frame-tamper'], 'judge': judge_kdbx4('C05'), 'assumptions': FRAME_ASSUME,
+    'rule': 'valid KDBX4 files (single- and multi-block, all outer ciphers, gzip on/off) x mutations {byte substitution in header / header hash / header HMAC / blocks, '
+            'truncation at every kind of offset, cut at block boundaries incl. dropping the terminator, appended data, swapped / duplicated / dropped blocks, header edit with the '
+            'SHA-256 recomputed, multi-byte edits}; opened with the correct credentials; oracle: error, or the same database and configuration as the original',
+    'partial': ['"different content" after a strict block-prefix survives only if decrypt/gunzip/XML accept the prefix: that part lives in the dependencies (PrefixRejects hypothesis)'],
+    'level_text': 'Kernel-checked over the faithful model: every accepted block was authenticated under the key of its own index, so accepted data is a prefix of the authenticated '
+                  'blocks; header bytes are authenticated by the header MAC. Validated against the real reader on attacker mutations.',
+}
+PROPS['C06'] = {
+    'ops': ['frame-fuzz'], 'judge': judge_kdbx4('C06'), 'assumptions': FRAME_ASSUME,
+    'rule': 'KDBX4: every kind of prefix, authenticated-but-malformed interiors (bad inner key length, empty attachment field, truncated XML, missing inner fields, garbage XML, '
+            'cut/over-long inner header), header bytes and variant-dictionary surgery with the unkeyed hash recomputed, AES-KDF seeds of the wrong length, random bytes, valid signature + random; '
+            'KDF cost clamped; non-trivial = input passes the signature check',
+    'partial': ['C06_total (no panic on any input) is false on the unchanged code: one witness theorem per site; KDBX3/KDB/XML-level sites are added with their models'],
+    'level_text': 'Kernel-checked over the faithful model (every slice/unwrap modelled with its panic): the enumerated sites are the only panics, each has a witness, and well-formed files never panic. '
+                  'The real reader is run on malformed input in-process under catch_unwind with the panic site compared.',
+}
+PROPS['C01'] = {
+    'ops': ['frame-wf'], 'judge': judge_kdbx4('C01'), 'assumptions': FRAME_ASSUME,
+    'rule': 'independent builder: 3 outer ciphers x {AES-KDF, Argon2d, Argon2id; 0x10/0x13} x gzip on/off x 3 inner ciphers x credential compositions x 0..5 blocks of sizes {1,2,16,17,64,300} + remainder x '
+            'header-field permutations with 0..2 comment fields x variant-dictionary permutations x inner-header permutations x end-of-header payload; every 6th file comes from the real save; '
+            'non-trivial = >= 1 explicit block size or a permuted header',
+    'partial': ['XML surface variations and the object-model comparison are exercised by the XML model (pending in this round); framing: configuration, attachments and inner XML bytes'],
+    'level_text': 'Kernel-checked framing theorems over the faithful model of decrypt_kdbx4; the model is run against Database::get_xml/parse on files of every conforming layout built by an independent builder.',
+}
